@@ -21,6 +21,10 @@ CHECKS = {
          "other",
          "Decides the wiring the tests do not reach: every field of Input/Meta/Service is merged by the combinator its documented class requires with (earlier, later) operand order; the combinators have the documented selection behaviour for all operand shapes; the fold keeps the accumulator first; files are cleaned, then sorted, and that sorted slice is what is iterated; patterns keep flag order; decode state is fresh per file. Split invariance then follows algebraically; byte identity is not executed.",
          "DESIGN.md §4 C09"),
+ "C18": ("SSA typestate (v-prefix) for every semver argument, operand-provenance classification of all branch conditions and error sites of ValidateVersion, dominance rules for the skip conditions, store-order rule in main.buildVersion",
+         "other",
+         "Decides, for all build/config version pairs, the structure of the gate rather than sampled verdicts: semver functions only ever see v-prefixed operands; verdict-relevant conditions see versions only through Major/MajorMinor (patch/prerelease cannot matter); exactly the three documented rejection rules exist, each under the documented guards; skip conditions dominate everything; parse rules of Version.UnmarshalYAML; the build version's path from ldflags to the validator. semver's own semantics are trusted.",
+         "DESIGN.md §4 C18"),
 }
 NOT_YET = "check not built yet in this session (design in DESIGN.md §4); will be claimed once its rules run on /repo"
 
